@@ -609,10 +609,20 @@ def read_source(path):
     return text
 
 
+_last_cpu = [None]
+
+
+def _cpu_since_last():
+    now = time.process_time()
+    prev, _last_cpu[0] = _last_cpu[0], now
+    return 0.0 if prev is None else now - prev
+
+
 def _pack(res, case, label, src_for_sample=None):
     name = case.get("path") or case.get("src") or case.get("scenic") or ""
     out = {
         "name": name if "path" in case else repr(name[:60]),
+        "cpu": _cpu_since_last(),
         "status": res["status"],
         "nodes": res["nodes"],
         "excused": res["excused"],
@@ -765,7 +775,8 @@ def run(ctx):
         for o in outs:
             fam = o["label"]
             st = o["status"]
-            fs = by_family.setdefault(fam, {"programs": 0, "compared": 0, "violating": 0})
+            fs = by_family.setdefault(fam, {"programs": 0, "compared": 0, "violating": 0, "cpu_s": 0.0})
+            fs["cpu_s"] = round(fs["cpu_s"] + o.get("cpu", 0.0), 3)
             if st == "no-program":
                 stats["no_program_jobs"] += 1
                 continue
